@@ -12,10 +12,10 @@ import (
 
 func TestCheck(t *testing.T) {
 	vcommon.Main(t, "C13",
-		vcommon.S("value", 640000, 19200000, genValueCase(), checkValue),
-		vcommon.S("doc", 960000, 28800000, genDocCase(), checkDoc),
-		vcommon.S("refself", 80000, 2400000, genRefCase(), checkRefSelf),
-		vcommon.S("refpy", 96, 2880, genPyCase(), checkRefPy),
+		vcommon.S("value", 400000, 12800000, genValueCase(), checkValue),
+		vcommon.S("doc", 640000, 19200000, genDocCase(), checkDoc),
+		vcommon.S("refself", 48000, 1600000, genRefCase(), checkRefSelf),
+		vcommon.S("refpy", 64, 1920, genPyCase(), checkRefPy),
 	)
 }
 
